@@ -82,7 +82,12 @@ CHECKS['C18'] = dict(
          'observes. The model\'s premises are checked on every run: introspection of all package functions for mutable defaults must equal '
          'the modelled cell list, an AST scan must find no in-place mutation of a default-bound name or alias, the cells and all '
          'module-level containers must be unchanged after the run. Histories of generated documents (mixed maps/versions, repeats, reused '
-         'params) are compared result by result (verdict, errors, XML, HTML, ack body, context-reader iteration) with a fresh interpreter.',
+         'params; every third history starts with a run configured from a FILE, every third with a run on a private map directory whose maps.xml '
+         'differs) are compared result by result (verdict, errors, XML, HTML, ack body, context-reader iteration) with a fresh interpreter; '
+         'class-level containers are watched like module-level ones. Props/C18Doc.lean states the property for the END-TO-END model (a '
+         'session is the map of validateDoc / docXmlText / ctxDoc over the requests: session_history_independent, session_repeat, '
+         'session_order_independent - immediate, the model threads no state), and the documents of the histories are compared with that pure '
+         'model in the very process that ran the histories.',
     note=COMMON_NOTE + ' PARTIAL: interpreter-level state outside the model (logging, sys.path, stdlib caches) cannot be exhibited by the '
          'model and is only exercised by the history runs.',
     technique='Lean 4 proof (no write to cross-run cells => history independence) + introspection/AST premises + history vs fresh-process differential',
